@@ -327,6 +327,8 @@ def fake_signal(proc):
 
     def pthread_sigmask(how, sigs):
         t = RT.sched.cur()
+        if t is None:
+            return set()
         old = set(t.sigmask)
         sigs = set(map(int, sigs))
         if how == real_signal.SIG_BLOCK:
